@@ -49,3 +49,19 @@ fn c04_decmode_status_table() {
     assert!(DecModeStatus::from_usize(ALL_STATUS[k] as usize) == Some(ALL_STATUS[k]));
     kani::cover!(code == 4);
 }
+
+//# kind=complete tier=quick props=C04,C05 fns=DecMode::from_usize,DecModeStatus::from_usize | the numbers themselves, transcribed from xterm ctlseqs / DECRPM: DECTCEM 25, DECAWM 7, sixel scrolling 80, mouse 1000/1003/1006, alternate screen 1049, synchronized output 2026, bracketed paste 2004; DECRPM status 0 not recognised, 1 set, 2 reset, 3 permanently set, 4 permanently reset
+#[kani::proof]
+#[kani::unwind(11)]
+fn c04_dec_numbers() {
+    assert!(DecMode::VisibleCursor as usize == 25 && DecMode::AutoWrap as usize == 7 && DecMode::SixelScrolling as usize == 80);
+    assert!(DecMode::MouseReport as usize == 1000 && DecMode::MouseMotions as usize == 1003 && DecMode::MouseSGR as usize == 1006);
+    assert!(DecMode::AltScreen as usize == 1049 && DecMode::SynchronizedOutput as usize == 2026 && DecMode::BracketedPaste as usize == 2004);
+    assert!(DecModeStatus::from_usize(0) == Some(DecModeStatus::NotRecognized));
+    assert!(DecModeStatus::from_usize(1) == Some(DecModeStatus::Enabled));
+    assert!(DecModeStatus::from_usize(2) == Some(DecModeStatus::Disabled));
+    assert!(DecModeStatus::from_usize(3) == Some(DecModeStatus::PermanentlyEnabled));
+    assert!(DecModeStatus::from_usize(4) == Some(DecModeStatus::PermanentlyDisabled));
+    assert!(DecMode::from_usize(1049) == Some(DecMode::AltScreen) && DecMode::from_usize(2004) == Some(DecMode::BracketedPaste));
+    kani::cover!(true);
+}
